@@ -29,6 +29,20 @@ Tie to the code on every run (public API only: `RTFDocument(...).write_rtf`, `as
           page is named in the replay), single input byte-identical, FileNotFoundError / nothing written — no path of
           the directory changed; correspondence: model `assembleIn` over the whole directory (driver op asm_fs), paths
           other than the output unchanged (C17_others_untouched)
+          alias (added to the scenes above): the output path denotes the FILE OF ONE OF THE INPUTS (any position; the
+          only, first, middle, last input; existing or, in a missing scenario, absent) — the same argument string,
+          another spelling (abs / rel / ./ / x/../x, str / Path), a symbolic link to the input's file, the input listed
+          through a link and the output the file itself, a hard link; and a name that differs only in case (another
+          file).  Oracle unchanged: pages read back from the output == the listed inputs' pages AS THEY WERE WHEN THE
+          CALL STARTED; when nothing may be written the input under the output path is untouched.  Correspondence:
+          model `assembleInDir` (names resolve to file identities — driver op asm_fs with keys): every name of the
+          output's file reads the lines written, every other name reads what it read before
+          (C17_reads_before_write, C17_alias_output_is_input)
+  grow    histories: assemble_rtf(first inputs, combined), then once or twice more assemble_rtf([… combined …], combined)
+          with the combined file first (append) / last (prepend) / in the middle / listed twice, under the same string,
+          abs / rel / ./, a symbolic link or a hard link; every call judged (Lean closed form + brace scan + reader)
+          against its inputs as they were when it started, and the final file against the documents in the order they
+          were put together (C17_grow_in_place)
   calls   empty list / missing inputs (any position, several) / empty non-last file, with the output path absent or
           pre-existing: exception kind + missing list + "output untouched" vs model `assembleRtf` (driver op asm_call)
   toy     synthetic line lists NOT of the rtflite shape (no font table, font table at the end, `}` variants, blank
@@ -61,7 +75,11 @@ RULE = ("docs: 1..6 real write_rtf files per assembly drawn from a seeded pool (
         "files under a family of file / directory / output names (glob metacharacters, blanks, non-ASCII, leading "
         ". - ~, shell/URL syntax, prefixes of one another) next to decoy files they would match as patterns or after a "
         "normalisation, argument forms abs/rel/./..//Path/symlink/listed twice, ok | empty | missing scenarios; calls: "
-        "missing/empty/IndexError cases with absent or pre-existing output; toy: random non-rtflite line lists")
+        "missing/empty/IndexError cases with absent or pre-existing output; toy: random non-rtflite line lists; "
+        "alias: names scenes / toy / call cases in which the output path denotes the file of one of the inputs (any "
+        "position; same string, other spelling, symlink, hard link; case variant = another file); grow: 2..3-call "
+        "histories that assemble into a combined file and then assemble that file (first/last/middle/twice, any "
+        "spelling) with further pool documents into itself")
 TRUSTED = [
     "Lean 4.33 kernel; axioms ⊆ {propext, Classical.choice, Quot.sound} (audited per theorem on every run)",
     "Lean compiler for the driver executable (compiled evaluation agrees with kernel reduction)",
@@ -78,10 +96,15 @@ MANIFEST = dict(
          "line; the result is one balanced top-level group when the inputs are; single input unchanged, empty list "
          "and missing inputs write nothing; the output has the input shape again (nested = flat); the outcome depends only on "
          "the contents found under the listed names, in argument order (C17_reads_only_listed, C17_contents_only, "
-         "C17_decoys), and no path but the output changes (C17_others_untouched). Tied to the code "
+         "C17_decoys), and no path but the output changes (C17_others_untouched); all inputs are read before the "
+         "output is opened, so the output path may denote the file of one of the inputs — growing a combined file "
+         "in place (C17_reads_before_write, C17_alias_output_is_input, C17_grow_in_place). Tied to the code "
          "on every run by assembling real write_rtf files and comparing bytes with the model, and judged by the "
          "Lean-defined oracle (closed form + brace scan) plus an independent RTF reader (pages, geometry).",
-    note="A listed input is one NAME (never a pattern): inputs, directories and output are also generated under names "
+    note="The output path may be one of the inputs (same string, another spelling, symbolic or hard link): the pages "
+         "read back are those of the inputs as they were when the call started; generated in the names scenes, the "
+         "toy / call streams and as 2..3-call histories that grow a combined file in place. "
+         "A listed input is one NAME (never a pattern): inputs, directories and output are also generated under names "
          "with glob metacharacters, blanks, non-ASCII, leading . - ~ etc. next to decoy files whose pages must not "
          "appear. A missing input given as pathlib.Path raised TypeError from the "
          "message join until rtflite 88a9e50 (D44); missing inputs are now given as str and as Path. "
@@ -267,15 +290,23 @@ def read_raw(path):
 
 # ------------------------------------------------------------------ real call
 
+def _path_state(p):
+    """(inode, mtime, size, text) of the file the path denotes, None when there is none"""
+    if not os.path.exists(p):
+        return None
+    st = os.stat(p)
+    return (st.st_ino, st.st_mtime_ns, st.st_size, read_raw(p))
+
+
 def _call(paths, out, preexist):
-    """run the real assemble_rtf; observe exception, output presence/content, untouched-ness"""
+    """run the real assemble_rtf; observe exception, output presence/content, untouched-ness (the output path denotes
+    the same file with the same content and time stamp as when the call started — a sentinel when `preexist`, nothing,
+    or, when the output path is one of the inputs, that input)"""
     from rtflite import assemble_rtf
 
-    before = None
     if preexist:
         Path(out).write_text(SENTINEL, encoding="utf-8")
-        st = os.stat(out)
-        before = (st.st_ino, st.st_mtime_ns, st.st_size)
+    before = _path_state(out)
     exc = None
     try:
         ret = assemble_rtf(list(paths), out)
@@ -289,9 +320,7 @@ def _call(paths, out, preexist):
         exc = dict(kind=type(e).__name__, msg=str(e)[:200])
     exists = os.path.exists(out)
     text = read_raw(out) if exists else None
-    untouched = (not exists) if not preexist else (
-        exists and text == SENTINEL and (lambda s: (s.st_ino, s.st_mtime_ns, s.st_size))(os.stat(out)) == before)
-    return dict(exc=exc, exists=exists, text=text, untouched=untouched)
+    return dict(exc=exc, exists=exists, text=text, untouched=_path_state(out) == before)
 
 
 def _asm_worker(case):
@@ -337,9 +366,15 @@ def _toy_worker(case):
         for p, t in zip(paths, case["texts"]):
             contents.append(read_lines(p) if os.path.exists(p) else None)
         out = os.path.join(wd, "out.rtf")
-        ob = _call(paths, out, case.get("preexist", False))
+        alias = case.get("alias")
+        if alias is not None:                   # the output path IS the alias-th input (existing or missing)
+            out = paths[alias]
+        ob = _call(paths, out, case.get("preexist", False) and alias is None)
         ob["contents"] = contents
         ob["paths"] = paths
+        # every input but the output reads as before
+        ob["inputs_changed"] = [i for i, p in enumerate(paths) if p != out
+                                and (read_lines(p) if os.path.exists(p) else None) != contents[i]]
         return ob
     finally:
         shutil.rmtree(wd, ignore_errors=True)
@@ -461,8 +496,14 @@ def name_features(name):
     return f or ["plain"]
 
 
-def gen_names(rng, docs_in, docs_decoy):
-    """one self-contained directory scene; docs_* are pool indices (contents)"""
+ALIAS_HOW = ["same-name", "same-name", "other-spelling", "other-spelling", "symlink-to-input", "input-through-symlink",
+             "hard-link", "case-variant"]
+FORMS = ["abs", "rel", "dot", "dotdot"]
+
+
+def gen_names(rng, docs_in, docs_decoy, alias=False):
+    """one self-contained directory scene; docs_* are pool indices (contents).  alias: the output path denotes the
+    file of one of the listed inputs (any position; all draws for it come after the ordinary ones)"""
     files, links, feats = {}, {}, []       # rel → doc ; rel → target rel
     decoys = {}                            # rel → label
     taken = set()
@@ -593,9 +634,50 @@ def gen_names(rng, docs_in, docs_decoy):
         x["path"] = rng.random() < 0.25          # (missing inputs too: repaired in rtflite 88a9e50, D44)
     out = dict(rel=out_rel, form=rng.choices(["abs", "rel", "dot", "dotdot"], (40, 30, 15, 15))[0],
                path=rng.random() < 0.25, preexist=rng.random() < 0.3)
+    hard = {}
+    if alias and inputs:
+        i = rng.randrange(len(inputs))
+        x = inputs[i]
+        target = links.get(x["ref"], x["ref"])      # the file the i-th listed name denotes (absent in a missing scenario)
+        how = rng.choice(ALIAS_HOW)
+        out["preexist"] = False                      # what is there is the input itself
+        if how == "hard-link" and target not in files:
+            how = "same-name"
+        if how == "case-variant":
+            # NOT an alias where the file system is case-sensitive: another file, the input must not be touched
+            base = os.path.basename(x["ref"])
+            v = rel(os.path.dirname(x["ref"]), base.swapcase())
+            if base.swapcase() == base or v in taken or len(base.swapcase().encode()) != len(base.encode()):
+                how = "same-name"
+            else:
+                taken.add(v)
+                out["rel"] = v
+                out["preexist"] = rng.random() < 0.5
+        if how in ("same-name", "other-spelling"):
+            out["rel"] = x["ref"]
+            if how == "same-name":
+                out["form"], out["path"] = x["form"], x["path"]
+            else:
+                out["form"] = rng.choice([f for f in FORMS if f != x["form"]])
+        elif how in ("symlink-to-input", "hard-link"):
+            od2 = rng.choice(dirs)
+            lr = rel(od2, pick_name(od2))
+            taken.add(lr)
+            (links if how == "symlink-to-input" else hard)[lr] = target
+            out["rel"] = lr
+        elif how == "input-through-symlink":
+            if x["ref"] not in links:                # list the input through a new link, write to the file itself
+                ld = rng.choice(dirs)
+                lr = rel(ld, pick_name(ld))
+                taken.add(lr)
+                links[lr] = x["ref"]
+                x["ref"] = lr
+            out["rel"] = target
+        out["alias"] = dict(pos=i, how=how, of=len(inputs))
     return dict(level="names", scenario=scenario, dirs=[d for d in dirs if d],
                 files=[dict(rel=k, doc=v) for k, v in files.items()],
                 links=[dict(rel=k, to=v) for k, v in links.items()],
+                hardlinks=[dict(rel=k, to=v) for k, v in hard.items()],
                 decoys=decoys, inputs=inputs, out=out, features=sorted(set(feats)))
 
 
@@ -610,6 +692,15 @@ def _arg(root, ref, form, as_path):
         head, _, tail = ref.partition("/")
         s = (head + "/../" + ref) if tail else ("../" + os.path.basename(root) + "/" + ref)
     return Path(s) if as_path else s
+
+
+def _file_key(p):
+    """identity of the file a path denotes (cwd = the scene's root)"""
+    try:
+        st = os.stat(p)
+        return f"{st.st_dev}:{st.st_ino}"
+    except OSError:
+        return "absent:" + os.path.realpath(p)
 
 
 def _snapshot(root):
@@ -648,6 +739,10 @@ def _names_worker(case):
             p = os.path.join(root, l["rel"])
             os.makedirs(os.path.dirname(p), exist_ok=True)
             os.symlink(os.path.relpath(os.path.join(root, l["to"]), os.path.dirname(p)), p)
+        for l in case.get("hardlinks", []):
+            p = os.path.join(root, l["rel"])
+            os.makedirs(os.path.dirname(p), exist_ok=True)
+            os.link(os.path.join(root, l["to"]), p)
         o = case["out"]
         out_abs = os.path.join(root, o["rel"])
         os.makedirs(os.path.dirname(out_abs), exist_ok=True)
@@ -658,6 +753,11 @@ def _names_worker(case):
         out_arg = _arg(root, o["rel"], o["form"], o["path"])
         exc = None
         os.chdir(root)
+        # which file every name denotes when the call starts (several names may denote one file)
+        regular = [r for r, v in before.items() if v.startswith("F:")]
+        keys = dict(args=[_file_key(a) for a in args], out=_file_key(out_arg),
+                    files={r: _file_key(os.path.join(root, r)) for r in regular})
+        alias_rels = sorted(r for r in regular if r != o["rel"] and keys["files"][r] == keys["out"])
         try:
             ret = assemble_rtf(list(args), out_arg)
             if ret is not None:
@@ -670,8 +770,14 @@ def _names_worker(case):
         exists = os.path.lexists(out_abs)
         text = read_raw(out_abs) if os.path.isfile(out_abs) else None
         changed = sorted(r for r in set(before) | set(after) if r != o["rel"] and before.get(r) != after.get(r))
+        sha = lambda v: v.split(":")[1] if v and v.startswith("F:") else v      # noqa: E731
         res = dict(exc=exc, exists=exists, text=text, untouched=before.get(o["rel"]) == after.get(o["rel"]),
-                   changed=changed, root=root, args=[os.fspath(a) for a in args], out_arg=os.fspath(out_arg))
+                   changed=changed, root=root, args=[os.fspath(a) for a in args], out_arg=os.fspath(out_arg),
+                   keys=keys, alias_rels=alias_rels,
+                   content_changed=sorted(r for r in set(before) | set(after)
+                                          if r != o["rel"] and sha(before.get(r)) != sha(after.get(r))),
+                   alias_stale=[r for r in alias_rels if exc is None and text is not None
+                                and (not os.path.isfile(os.path.join(root, r)) or read_raw(os.path.join(root, r)) != text)])
         if text is not None and exc is None and text != SENTINEL:
             try:
                 res["summary"] = doc_summary(Path(out_abs).read_bytes())
@@ -692,11 +798,16 @@ def names_requests(case, ob, lines):
         if x["doc"] is not None:
             names.append(a)
             contents.append(lines[x["doc"]])
-    for f in case["files"]:                     # every file of the scene, decoys included, under its absolute name
-        names.append(os.path.join(root, f["rel"]))
-        contents.append(lines[f["doc"]])
+    keys = [k for x, k in zip(case["inputs"], ob["keys"]["args"]) if x["doc"] is not None]
+    docs = {f["rel"]: f["doc"] for f in case["files"]}
+    for r, k in [(f["rel"], f["doc"]) for f in case["files"]] + \
+                [(h["rel"], docs[h["to"]]) for h in case.get("hardlinks", [])]:
+        names.append(os.path.join(root, r))     # every file of the scene, decoys included, under its absolute name
+        contents.append(lines[k])
+        keys.append(ob["keys"]["files"][r])
     observed = ob["text"] if ob["exc"] is None and ob["text"] is not None and ob["text"] != SENTINEL else None
-    reqs = [dict(op="asm_fs", names=names, contents=contents, inputs=ob["args"], out=ob["out_arg"], observed=observed)]
+    reqs = [dict(op="asm_fs", names=names, contents=contents, keys=keys, inputs=ob["args"], out=ob["out_arg"],
+                 out_key=ob["keys"]["out"], observed=observed)]
     if case["inputs"] and all(x["doc"] is not None for x in case["inputs"]):
         reqs.append(dict(op="asm_lines", files=[lines[x["doc"]] for x in case["inputs"]], observed=ob["text"] or ""))
     return reqs
@@ -707,8 +818,13 @@ def judge_names(res, case, ob, drv, sums, lines):
     fsr = drv[0]
     kind = ob["exc"]["kind"] if ob["exc"] else "returned"
     inputs = case["inputs"]
-    where = (f" [arguments {ob['args']} → {ob['out_arg']!r}; the directory also holds "
-             f"{sorted(case['decoys'])[:12]}]")
+    al = case["out"].get("alias")
+    same = [i + 1 for i, k in enumerate(ob["keys"]["args"]) if k == ob["keys"]["out"]]
+    where = (f" [arguments {ob['args']} → {ob['out_arg']!r}; "
+             + (f"the output path denotes the file of input {same} of {len(inputs)} when the call starts"
+                + (f" ({al['how']})" if al and al["how"] else "") + "; " if same else
+                f"the output path differs only in case from an input's name; " if al and al["how"] == "case-variant" else "")
+             + f"the directory also holds {sorted(case['decoys'])[:12]}]")
     nowrite = (not inputs) or any(x["doc"] is None for x in inputs)
     if nowrite:
         if not inputs:
@@ -761,8 +877,13 @@ def judge_names(res, case, ob, drv, sums, lines):
                                 + " — not a listed file")
             res.fail(case, why + where)
             return
-        if ob["changed"]:
-            res.disagree(case, f"paths other than the output changed: {ob['changed']} (C17_others_untouched)" + where)
+        others = sorted(set(ob["changed"]) - set(ob["alias_rels"]))
+        if others:
+            res.disagree(case, f"paths other than the output changed: {others} (C17_others_untouched)" + where)
+            return
+        if ob["alias_stale"]:
+            res.disagree(case, f"other names of the output's file do not read what was written: {ob['alias_stale']} "
+                               "(C17_reads_before_write)" + where)
             return
         if lin["obs_is_spec"] is not True:
             res.disagree(case, "assembled bytes differ from the closed form of C17_lines" + where)
@@ -778,6 +899,12 @@ def judge_names(res, case, ob, drv, sums, lines):
             res.disagree(case, "model writes nothing but the directory changed")
     elif not fsr["written_is_observed"]:
         res.disagree(case, "bytes written differ from the model's lines over the directory" + where)
+    else:
+        mch = set(fsr["changed"])
+        model_changed = sorted(r for r in ob["keys"]["files"]
+                               if r != case["out"]["rel"] and os.path.join(ob["root"], r) in mch)
+        if model_changed != ob["content_changed"]:
+            res.disagree(case, f"names whose content changed {ob['content_changed']} != the model's {model_changed}" + where)
 
 
 def names_full_case(case, specs):
@@ -807,6 +934,16 @@ def count_names(res, case, ob):
         res.count("names:output:in-a-directory-of-the-inputs")
     if o["preexist"]:
         res.count("names:output:pre-existing")
+    al = o.get("alias")
+    if al:
+        res.count("names:output-alias:" + al["how"])
+        if al["how"] != "case-variant":
+            res.count("names:output-is-input:" + ("only" if al["of"] == 1 else "first" if al["pos"] == 0 else
+                                                  "last" if al["pos"] == al["of"] - 1 else "middle"))
+            res.count("names:output-is-input:" + ("same-argument-string" if ob["out_arg"] in ob["args"]
+                                                  else "another-spelling-or-name"))
+            res.count("names:output-is-input:" + ("the-file-exists" if case["inputs"][al["pos"]]["doc"] is not None
+                                                  else "the-file-is-missing"))
     res.count("names:outcome:" + (ob["exc"]["kind"] if ob["exc"] else "returned"))
 
 
@@ -824,6 +961,8 @@ def run_names(res, tier, pool):
     docs_decoy = sizes[:max(8, len(sizes) // 2)]           # decoys: the smaller half (request size), any kind
     sums = {k: st[k]["summary"] for k in good}
     cases = [gen_names(sub_rng(res.seed, "c17names", i), good, docs_decoy) for i in range(ncases)]
+    # added: the output path denotes the file of one of the inputs
+    cases += [gen_names(sub_rng(res.seed, "c17namesalias", i), good, docs_decoy, alias=True) for i in range(ncases // 4)]
     ppool = {k: paths[k] for k in good}
     obs = common.pool_map(_names_worker, [dict(c, _pool=ppool) for c in cases] + [dict(PATH_PROBE, _pool={})], chunksize=4)
     probe = obs[len(cases)]
@@ -841,7 +980,8 @@ def run_names(res, tier, pool):
     drv = driver_parallel(reqs, chunk=24)
     for c, o, (a, b) in zip(cases, obs, spans):
         full = names_full_case(c, specs)
-        nt = ("names", tuple((x["ref"], x["form"], x["path"]) for x in c["inputs"]), c["out"]["rel"], c["scenario"])
+        nt = ("names", tuple((x["ref"], x["form"], x["path"]) for x in c["inputs"]), c["out"]["rel"], c["scenario"],
+              (c["out"].get("alias") or {}).get("how"))
         res.case(full, nt if c["inputs"] else None)
         count_names(res, c, o)
         res.corr_checked += 1
@@ -942,7 +1082,8 @@ def judge_call(res, case, ob, drv):
             return
         if not ob["untouched"]:
             res.fail(case, "output path was created or modified although nothing may be written "
-                           f"(preexist={case.get('preexist', False)}, exists after={ob['exists']})")
+                           f"(preexist={case.get('preexist', False)}, output is input {case.get('alias')}, "
+                           f"exists after={ob['exists']})")
             return
     if kind != m["kind"]:
         res.disagree(case, f"outcome {kind} ({ob['exc']}) != model {m['kind']}")
@@ -957,6 +1098,8 @@ def judge_call(res, case, ob, drv):
     else:
         if not drv["written_is_observed"]:
             res.disagree(case, "bytes written differ from the model's lines")
+    if ob.get("inputs_changed"):
+        res.disagree(case, f"inputs other than the output path read differently after the call: {ob['inputs_changed']}")
     # single toy input: byte-identical (after newline translation, which is CPython's)
     if len(case["texts"]) == 1 and case["texts"][0] is not None and kind == "returned":
         if ob["text"] != "".join(ob["contents"][0]):
@@ -973,7 +1116,7 @@ TOY_LINES = [
 ]
 
 
-def gen_toy(rng):
+def gen_toy(rng, alias=False):
     n = rng.randint(1, 4)
     texts = []
     for _ in range(n):
@@ -995,11 +1138,27 @@ def gen_toy(rng):
         if rng.random() < 0.3 and t.endswith("\n"):
             t = t[:-1]
         texts.append(t)
-    return dict(level="toy", names=[f"in{i}.rtf" for i in range(n)], texts=texts, preexist=rng.random() < 0.3)
+    case = dict(level="toy", names=[f"in{i}.rtf" for i in range(n)], texts=texts, preexist=rng.random() < 0.3)
+    if alias:                                   # the output path is one of the inputs
+        case.update(alias=rng.randrange(n), preexist=False)
+    return case
 
 
-def gen_call(rng, sample_texts):
-    """missing / empty-list / IndexError cases over small real or toy contents"""
+def gen_call(rng, sample_texts, alias=False):
+    """missing / empty-list / IndexError cases over small real or toy contents; alias: the output path is one of the
+    inputs (an existing one — it must stay as it is when nothing may be written — or a missing one), and also calls in
+    which every input exists"""
+    if alias:
+        n = rng.randint(1, 6)
+        texts = [rng.choice(sample_texts) for _ in range(n)]
+        r = rng.random()
+        if r < 0.5:
+            for i in rng.sample(range(n), min(rng.choice([1, 1, 2]), n)):
+                texts[i] = None
+        elif r < 0.65 and n >= 2:
+            texts[rng.randrange(n - 1)] = ""
+        return dict(level="call", names=[f"in{i}.rtf" for i in range(n)], texts=texts, preexist=False,
+                    alias=rng.randrange(n))
     r = rng.random()
     if r < 0.15:
         return dict(level="call", names=[], texts=[], preexist=rng.random() < 0.5)
@@ -1090,6 +1249,187 @@ def run_docs(res, tier, tmp):
     return [("".join(lines[k])) for k in good[:6]], dict(good=good, paths=paths, lines=lines, st=st, specs=specs)
 
 
+# ------------------------------------------------------------------ growing a combined file in place (histories)
+#
+# assemble_rtf(first inputs, combined), then assemble_rtf([... combined ...], combined) once or twice more: the output
+# path is one of the inputs (first = append, last = prepend, in the middle, listed twice), under the same argument
+# string or another spelling / a symbolic link / a hard link.  The inputs are read before the output is opened
+# (C17_reads_before_write, C17_alias_output_is_input, C17_grow_in_place), so every call is judged against the pages
+# of its inputs AS THEY WERE WHEN THE CALL STARTED (the combined file: read just before the call).
+
+COMBINED_SPELL = ["same", "same", "abs", "rel", "dot", "symlink", "hardlink"]
+
+
+def gen_grow(rng, good):
+    n = rng.choice([2, 3, 3, 4, 5, 6])
+    order = [rng.choice(good) for _ in range(n)]
+    nsteps = 2 if n < 4 or rng.random() < 0.6 else 3
+    cuts = sorted(rng.sample(range(1, n), nsteps - 1))
+    chunks = [order[a:b] for a, b in zip([0] + cuts, cuts + [n])]
+    steps = [dict(inputs=list(chunks[0]), where=None)]
+    flat = list(chunks[0])
+    for ch in chunks[1:]:
+        where = rng.choice(["first", "first", "last", "middle", "twice"])
+        c = dict(combined=rng.choice(COMBINED_SPELL))
+        if where == "first":
+            ins, flat = [c] + ch, flat + ch
+        elif where == "last":
+            ins, flat = ch + [c], ch + flat
+        elif where == "middle":
+            j = rng.randint(0, len(ch))
+            ins, flat = ch[:j] + [c] + ch[j:], ch[:j] + flat + ch[j:]
+        else:
+            ins, flat = [c] + ch + [dict(combined=rng.choice(COMBINED_SPELL))], flat + ch + flat
+        steps.append(dict(inputs=ins, where=where))
+    return dict(level="grow", steps=steps, flat=flat, out_form=rng.choice(["abs", "abs", "rel", "dot"]))
+
+
+def _grow_worker(case):
+    """the history of calls in one temp dir (cwd); before every call the inputs are read as they are then"""
+    pool = case["_pool"]
+    wd = tempfile.mkdtemp(prefix="rtfv_c17grow_")
+    cwd = os.getcwd()
+    try:
+        os.chdir(wd)
+        comb = os.path.join(wd, "combined.rtf")
+        spell = dict(abs=comb, rel="combined.rtf", dot="./combined.rtf", symlink=os.path.join(wd, "latest.rtf"),
+                     hardlink="deliverable.rtf")
+        out = spell[case["out_form"]]
+        steps = []
+        for st in case["steps"]:
+            paths, shown = [], []
+            for x in st["inputs"]:
+                if isinstance(x, dict):
+                    sp = x["combined"]
+                    p = out if sp == "same" else spell[sp]
+                    if sp == "symlink" and not os.path.lexists(p):
+                        os.symlink("combined.rtf", p)
+                    if sp == "hardlink":
+                        if os.path.lexists(p):
+                            os.remove(p)
+                        os.link(comb, p)
+                    shown.append(p.replace(wd + os.sep, "<dir>/") + (f" [{sp} of the output's file]" if sp not in ("same", "abs", "rel", "dot") else ""))
+                else:
+                    p = pool[x]
+                    shown.append(f"doc{x}.rtf")
+                paths.append(p)
+            lines = [read_lines(p) for p in paths]
+            combined_before = None
+            if os.path.exists(comb):
+                try:
+                    combined_before = doc_summary(Path(comb).read_bytes())
+                except rtfread.RtfError as e:
+                    combined_before = dict(unreadable=str(e))
+            ob = _call(paths, out, False)
+            r = dict(ob, lines=lines, combined_before=combined_before,
+                     call=f"assemble_rtf([{', '.join(shown)}], {out.replace(wd + os.sep, '<dir>/')!r})")
+            if ob["text"] is not None and ob["exc"] is None:
+                try:
+                    r["summary"] = doc_summary(Path(comb).read_bytes())
+                except rtfread.RtfError as e:
+                    r["unreadable"] = str(e)
+            steps.append(r)
+            if ob["exc"] is not None:
+                break
+        return dict(steps=steps)
+    finally:
+        os.chdir(cwd)
+        shutil.rmtree(wd, ignore_errors=True)
+
+
+def grow_requests(ob):
+    return [dict(op="asm_lines", files=o["lines"], observed=o["text"] if o["text"] is not None else "") for o in ob["steps"]]
+
+
+def judge_grow(res, case, ob, drv, sums):
+    """every call of the history against its inputs as they were when it started; then the whole history"""
+    nst = len(case["steps"])
+    for j, (st, o, d) in enumerate(zip(case["steps"], ob["steps"], drv)):
+        summaries = [o["combined_before"] if isinstance(x, dict) else sums[x] for x in st["inputs"]]
+        n = len(st["inputs"])
+        stepcase = dict(order=[0] * n, nested=None)
+        if n == 1:
+            stepcase["_single_text"] = "".join(o["lines"][0])
+        call = f"call {j + 1} of {nst}, {o['call']}"
+        if any(s is None or "unreadable" in s for s in summaries):
+            res.disagree(case, call + ": the combined file of the previous call cannot be read back")
+            return
+        t = common.Result("C17", "quick", 0)
+        judge_doc(t, stepcase, o, d, summaries)
+        if t.failures:
+            extra = ""
+            if o["exc"] is not None and any(isinstance(x, dict) for x in st["inputs"]):
+                extra = (" — the output path is one of the inputs; every input existed when the call started; the "
+                         f"combined file exists afterwards: {o['exists']}")
+            res.fail(case, call + ": " + t.failures[0][1] + extra)
+            return
+        if t.disagreements:
+            res.disagree(case, call + ": " + t.disagreements[0][1])
+            return
+    final = ob["steps"][-1]["summary"]["pages"]
+    exp = [pg for k in case["flat"] for pg in sums[k]["pages"]]
+    if final != exp:
+        res.fail(case, f"after the {nst} calls the combined file has {len(final)} pages, not the {len(exp)} pages of the "
+                       f"documents {case['flat']} in the order they were put together")
+
+
+def run_grow(res, tier, pool):
+    ncases = 160 if tier == "quick" else 1600
+    good, paths, lines, st, specs = pool["good"], pool["paths"], pool["lines"], pool["st"], pool["specs"]
+    sizes = sorted(good, key=lambda k: sum(map(len, lines[k])))
+    small = sizes[:max(8, (2 * len(sizes)) // 3)]           # the combined file travels to the driver: not the largest
+    sums = {k: st[k]["summary"] for k in good}
+    cases = [gen_grow(sub_rng(res.seed, "c17grow", i), small) for i in range(ncases)]
+    ppool = {k: paths[k] for k in good}
+    obs = common.pool_map(_grow_worker, [dict(c, _pool=ppool) for c in cases], chunksize=2)
+    reqs, spans = [], []
+    for o in obs:
+        r = grow_requests(o)
+        spans.append((len(reqs), len(reqs) + len(r)))
+        reqs += r
+    drv = driver_parallel(reqs, chunk=16)
+    for c, o, (a, b) in zip(cases, obs, spans):
+        full = dict(c, docs={str(k): specs[k] for k in sorted(set(c["flat"]))})
+        res.case(full, ("grow", tuple(json.dumps(s["inputs"], sort_keys=True) for s in c["steps"]), c["out_form"]))
+        res.count(f"grow:calls:{len(c['steps'])}")
+        res.count("grow:output-spelled:" + c["out_form"])
+        for s_ in c["steps"][1:]:
+            res.count("grow:combined-file-listed:" + s_["where"])
+            for x in s_["inputs"]:
+                if isinstance(x, dict):
+                    res.count("grow:combined-file-spelled:" + x["combined"])
+        res.corr_checked += 1
+        judge_grow(res, full, o, drv[a:b], sums)
+
+
+def _eval_grow_child(args):
+    case, tmp = args
+    pool, sums = {}, {}
+    for k, spec in case["docs"].items():
+        p = os.path.join(tmp, f"doc{k}.rtf")
+        st = _write_doc((spec, p))
+        if st["status"] != "ok":
+            return dict(error=f"cannot rebuild document {k}: {st}")
+        pool[int(k)], sums[int(k)] = p, st["summary"]
+    return dict(ob=_grow_worker(dict(case, _pool=pool)), sums=sums)
+
+
+def eval_grow_case(res, case, tmp, verbose=False):
+    r = _in_child(_eval_grow_child, (case, str(tmp)))
+    if "error" in r:
+        raise common.MachineryError(r["error"])
+    ob, sums = r["ob"], r["sums"]
+    drv = common.driver_batch(grow_requests(ob))
+    if verbose:
+        for o, d in zip(ob["steps"], drv):
+            print(o["call"])
+            print("   exception:", o["exc"], " output exists:", o["exists"],
+                  " pages:", len(o["summary"]["pages"]) if "summary" in o else None,
+                  " Lean: shaped", d["shaped"], "wellformed(out)", d.get("obs_wellformed"), "out==expected", d.get("obs_is_spec"))
+        print("documents put together, in order:", case["flat"])
+    judge_grow(res, case, ob, drv, sums)
+
+
 def driver_parallel(reqs, chunk=40):
     """the driver is stateless per line: split big batches over processes"""
     if len(reqs) <= chunk:
@@ -1106,6 +1446,9 @@ def run_calls(res, tier, sample_texts):
                  "{\\rtf1\\ansi\n\\deff0{\\fonttbl{\\f0\\fcharset0 A;}\n}{\\colortbl;\n\\red1;\n}\n{\\f0 b fcharset}\\par\n}"]
     cases = [gen_toy(sub_rng(res.seed, "c17toy", i)) for i in range(ntoy)]
     cases += [gen_call(sub_rng(res.seed, "c17call", i), toy_small + sample_texts) for i in range(ncall)]
+    # the output path is one of the inputs (added to the streams above)
+    cases += [gen_toy(sub_rng(res.seed, "c17toyalias", i), alias=True) for i in range(ntoy // 5)]
+    cases += [gen_call(sub_rng(res.seed, "c17callalias", i), toy_small + sample_texts, alias=True) for i in range(ncall // 2)]
     obs = common.pool_map(_toy_worker, cases, chunksize=32)
     reqs = [dict(op="asm_call", paths=o["paths"], contents=o["contents"],
                  observed=(o["text"] if o["exc"] is None and o["text"] != SENTINEL else None)) for o in obs]
@@ -1115,9 +1458,11 @@ def run_calls(res, tier, sample_texts):
         nt = None
         if c["level"] == "call" or len(c["texts"]) >= 2:
             nt = (c["level"], tuple(hashlib.sha1((t if t is not None else "\0").encode()).hexdigest()[:8] for t in c["texts"]),
-                  c.get("preexist", False))
+                  c.get("preexist", False), c.get("alias"))
         res.case(dict(c), nt)
-        res.count(f"{c['level']}:{kind}" + (":preexisting-output" if c.get("preexist") else ""))
+        res.count(f"{c['level']}:{kind}" + (":preexisting-output" if c.get("preexist") else "")
+                  + ("" if c.get("alias") is None else
+                     ":output-is-an-input" if c["texts"][c["alias"]] is not None else ":output-is-a-missing-input"))
         res.corr_checked += 1
         judge_call(res, dict(c), o, d)
 
@@ -1140,6 +1485,7 @@ def run(res: common.Result, build) -> int:
         run_corpus(res, tmp)
         sample_texts, pool = run_docs(res, res.tier, tmp)
         run_names(res, res.tier, pool)
+        run_grow(res, res.tier, pool)
         run_calls(res, res.tier, sample_texts)
         if res.failures:
             shrink_doc_failure(res, tmp)
@@ -1287,6 +1633,8 @@ def shrink_names_failure(res, pool, budget=40):
     else:
         return
     cur = {k: v for k, v in case.items() if k != "docs"}
+    if cur["out"].get("alias"):      # the label of how the alias was made does not survive shrinking; the message says what holds
+        cur["out"] = dict(cur["out"], alias=dict(cur["out"]["alias"], how=None))
     cur_why = why
     used = [0]
 
@@ -1321,7 +1669,7 @@ def shrink_names_failure(res, pool, budget=40):
     attempt(dict(cur, inputs=[dict(x, form="abs", path=False) for x in cur["inputs"]],
                  out=dict(cur["out"], form="abs", path=False, preexist=False)))
     # only the neighbours that matter
-    needed = {x["ref"] for x in cur["inputs"]} | {l["to"] for l in cur["links"]}
+    needed = {x["ref"] for x in cur["inputs"]} | {l["to"] for l in cur["links"]} | {l["to"] for l in cur.get("hardlinks", [])}
     drop = [f for f in cur["files"] if f["rel"] not in needed]
     attempt(dict(cur, files=[f for f in cur["files"] if f["rel"] in needed],
                  decoys={}))
@@ -1357,6 +1705,11 @@ def run_corpus(res, tmp):
             res.count("corpus")
             res.corr_checked += 1
             eval_names_case(res, case, tmp)
+        elif case.get("level") == "grow":
+            res.case(case, ("corpus", f.name))
+            res.count("corpus")
+            res.corr_checked += 1
+            eval_grow_case(res, case, tmp)
 
 
 # ------------------------------------------------------------------ replay
@@ -1370,6 +1723,8 @@ def replay(payload) -> int:
             eval_doc_case(res, case, tmp, verbose=True)
         elif case.get("level") == "names":
             eval_names_case(res, case, tmp, verbose=True)
+        elif case.get("level") == "grow":
+            eval_grow_case(res, case, tmp, verbose=True)
         elif case.get("level") in ("toy", "call"):
             ob = _in_child(_toy_worker, case)
             d = common.driver_batch([dict(op="asm_call", paths=ob["paths"], contents=ob["contents"], echo=True,
